@@ -1,6 +1,6 @@
 (* C02 — @constructor is enforced exactly: instantiation outside constructors reported. Statements only. *)
 From Coq Require Import List String ZArith Bool.
-From GG Require Import Base.Strs Model.Config Model.GoAst Model.Annots Model.Analyze Exec
+From GG Require Import Base.Strs Model.Config Model.GoTypes Model.GoAst Model.Annots Model.Analyze Exec
                        Proofs.WalkProofs Proofs.CheckerProofs Properties.C01.
 Import ListNotations.
 Local Open Scope Z_scope.
@@ -62,7 +62,7 @@ Definition ex_file2 : file :=
 Example C02_nonvacuous :
   map (fun d => (d_pos d, d_code d))
       (x_ctor {| scan_tests := false; exclude_paths := []; exclude_checks := [] |}
-              {| p_path := "a"; p_name := "a"; p_files := [ex_file2]; p_imports := [] |} ex_facts (fun _ _ => false))
+              {| p_path := "a"; p_name := "a"; p_files := [ex_file2]; p_imports := []; p_types := empty_typetable |} ex_facts (fun _ _ => false))
   = [(40, "CTOR01"); (208, "CTOR01")].
 Proof. vm_compute. reflexivity. Qed.
 
